@@ -1,0 +1,35 @@
+//go:build verif
+
+// Contracts checked by /verif/gvc (contract-based deductive verification).
+// This file contains comments only; it is compiled only under the "verif" build tag.
+
+package admin
+
+// Indexer: id -> list element. idxOK is its representation invariant: every indexed element is a member of
+// the row list. The abstract view is val(i, id): the value stored for id (only meaningful if has(i.index, id)).
+
+//@ spec func idxOK(i *Indexer) bool = i != nil && i.index != nil && i.rows != nil && listOK(i.rows) && (forall s string :: has(i.index, s) ==> i.index[s] != nil && inList(i.rows, i.index[s])) && (forall a string, b string :: has(i.index, a) && has(i.index, b) && a != b ==> i.index[a] != i.index[b])
+
+//@ func NewIndexer
+//@ props C19
+//@ ensures [C19] result != nil && isfresh(result) && idxOK(result) && (forall s string :: !has(result.index, s))
+
+//@ func (*Indexer).GetByID
+//@ props C19
+//@ requires [C19] idxOK(i)
+//@ ensures [C19] result == i.index[id] && (result != nil) == has(i.index, id)
+
+//@ func (*Indexer).Set
+//@ props C19
+//@ requires [C19] idxOK(i)
+//@ modifies map(i.index), all(list.Element.Value), ghost(i.rows.$len), ghost(i.rows.$next), ghostall(list.Element.$owner), ghostall(list.Element.$pos)
+//@ ensures [C19] idxOK(i) && has(i.index, id) && i.index[id].Value == value
+//@ ensures [C19] old(has(i.index, id)) ==> i.index[id] == old(i.index[id])
+//@ ensures [C19] forall s string :: s != id ==> has(i.index, s) == old(has(i.index, s)) && i.index[s] == old(i.index[s]) && (has(i.index, s) ==> i.index[s].Value == old(i.index[s].Value))
+
+//@ func (*Indexer).Remove
+//@ props C19
+//@ requires [C19] idxOK(i)
+//@ modifies map(i.index), ghost(i.rows.$len), ghostall(list.Element.$owner)
+//@ ensures [C19] idxOK(i) && !has(i.index, id) && result == old(i.index[id])
+//@ ensures [C19] forall s string :: s != id ==> has(i.index, s) == old(has(i.index, s)) && i.index[s] == old(i.index[s])
